@@ -29,7 +29,7 @@ def run(pid, tier, seed, replay):
     rep = vlib.Report(pid)
     key, mode, nq, nt = PLAN[pid]
     out = os.path.join(wd, mode + ".ndjson")
-    if replay and json.load(open(replay)).get("kind") == "system":
+    if replay and json.load(open(replay)).get("kind") in ("system", "system-stdio"):
         import system_checks
         system_checks.replay(pid, wd, rep, json.load(open(replay)))
         return rep.finish()
